@@ -102,7 +102,7 @@ CHECKS = {
         "one adopting parent. The composition of these facts is argued in DESIGN.md, not machine-checked. Bounded: every supported training password is in the --skip_brute stream and the mass is 1.",
    note="composition argument not an obligation; *_detection callee contracts discharged under C05; one-to-one case-mapping domain as in the statement"),
  'C13': dict(level='other', technique=TECH + "; read-only frame of the scorer decided on the AST; score-vs-guesser as bounded stand-in",
-   text="PCFGPasswordScorer.parse (all strings, all tables): e-mail / website inputs are classified e / w with probability 0, unsupported structures score 0, the score is exactly the "
+   text="PCFGPasswordScorer.parse (all strings, all tables): e-mail / website inputs are classified e / w with probability 0, unsupported structures score 0, a non-zero score is exactly the "
         "left-to-right product of the table entries of every detected segment and of the base structure (0 when one is missing), category p needs a score above the limit or an OMEN level "
         "within the maximum, no field of the scorer is updated; OmenScorer.parse returns the level sum or -1. Frame (AST): scoring never updates the scorer or its multi-word detector. "
         "Bounded: every non-zero score is matched by the real guesser emitting that string from a pre-terminal of that probability. Known finding F15.",
